@@ -133,7 +133,7 @@ def _fft_shape(dx, du, z, wavelength, oversample):
 
 
 def _fft2(x):
-    return np.fft.ifftshift(np.fft.fft2(np.fft.fftshift(x), norm='ortho'))
+    return np.fft.fftshift(np.fft.fft2(np.fft.ifftshift(x), norm='ortho'))
 
 
 def _has_tilt(wavefront):
